@@ -21,7 +21,7 @@ RULE = ("Engine 'score': Hypothesis draws an image pair (correlated with drawn S
         "FSC). Engine 'peak': displaced copies with mild noise; arg-max of landscape(upsample=u) vs the shift reported "
         "by align, for all four models. Engine 'loader': loader.score / construct_landscape row i vs the model applied "
         "to subtomogram i. Non-trivial = mask or cutoff or tilt present, or a non-cubic / odd box.")
-RULE += (" " + "Also: zero-range alignment of 2-3 template models against the single-template scores, and engine 'peak-wide' (landscapes for ranges from half the box to beyond it).")
+RULE += (" " + "Also: zero-range alignment of 2-3 template models against the single-template scores, and engine 'peak-wide' (landscapes for ranges from half the box to beyond it). Round 7: landscapes (upsample 1-3) of 2-3 template models against the single-template landscapes, candidate by candidate.")
 TOLERANCES = {"score vs reference": "2e-4", "range": "1e-5", "agreement score/landscape/align": "2e-4",
               "landscape arg-max vs align shift": "0.5/u + 0.2 px (FSC: 0.5/u + 0.5)"}
 ASSUMPTIONS = ["the wedge mask used by the reference is the model's own get_missing_wedge_mask (its geometry is C08's business)",
@@ -164,6 +164,18 @@ def judge_score(d):
             if np.isfinite(s1) and not abs(float(r.score) - max(singles)) <= 3e-4:
                 out.append(viol("C07/multi-template-score", f"ZNCC {tag}: {len(tl)}-template model: zero-range align score {float(r.score):.6f} (label {int(r.label)}) "
                                 f"but the best single-template score is {max(singles):.6f} (template {best})"))
+            # the landscape of candidate j of the several-template model is the landscape of the single-template model j,
+            # also when it is up-sampled (candidates are interpolated independently of each other)
+            u = 1 + d["seed"] % 3
+            m = d["lmax"]
+            ldT = np.asarray(modelT.landscape(sub, (m, m, m), quaternion=quat, pos=pos, upsample=u))
+            ld1 = [np.asarray(get_model("ZNCC")(t, mask, **kw).landscape(sub, (m, m, m), quaternion=quat, pos=pos, upsample=u)) for t in tl]
+            if ldT.shape != (len(tl),) + ld1[0].shape:
+                out.append(viol("C07/multi-template-landscape-shape", f"ZNCC {tag}: {len(tl)}-template landscape(upsample={u}) has shape {ldT.shape}, single-template {ld1[0].shape}"))
+            else:
+                e = max(float(np.abs(ldT[j] - ld1[j]).max()) for j in range(len(tl)))
+                if np.isfinite(s1) and not e <= 5e-4:
+                    out.append(viol("C07/multi-template-landscape", f"ZNCC {tag}: {len(tl)}-template landscape(upsample={u}) differs from the single-template landscapes by {e:.3g}"))
             if d["pair"] == "identical" and not abs(float(r.score) - 1) <= 1e-3:
                 out.append(viol("C07/multi-template-identical-not-1", f"ZNCC {tag}: {len(tl)}-template model scores {float(r.score):.6f} for a sub-volume identical to template {jpos}"))
     return out
